@@ -137,6 +137,29 @@ def explore(ctx):
                     walk(v)
         walk(c.node)
         node = rng.choice(cands[:1] * 3 + cands)
+        dict_attrs = []
+        bad_keys = []
+        if isinstance(node, yaml.MappingNode):
+            T = 'tag:yaml.org,2002:'
+            for kk, x in node.value:
+                # explicitly tagged scalars that PyYAML's constructors refuse in different ways
+                if isinstance(x, yaml.ScalarNode) and rng.random() < 0.2:
+                    if isinstance(kk, yaml.ScalarNode):
+                        bad_keys.append(kk.value)
+                    x.tag, x.value = rng.choice([(T + 'bool', 'maybe'), (T + 'int', ''), (T + 'bool', ''),
+                                                 (T + 'int', '+'), (T + 'timestamp', ''),(T + 'bool', 'maybe'), (T + 'int', ''), (T + 'int', 'x'),
+                                                 (T + 'float', 'abc'), (T + 'null', 'x'), (T + 'int', '0x_'),
+                                                 (T + 'timestamp', 'nope'), (T + 'float', '1_'),
+                                                 (T + 'value', '='), (T + 'merge', '<<'), ('!Colour', 'red'),
+                                                 (T + 'binary', 'aGk='), (T + 'set', 'x')])
+                # mappings with keys that are not strings
+                if isinstance(x, yaml.MappingNode) and isinstance(kk, yaml.ScalarNode):
+                    dict_attrs.append(kk.value)
+                    if x.value and rng.random() < 0.3:
+                        k0 = x.value[rng.randrange(len(x.value))][0]
+                        if isinstance(k0, yaml.ScalarNode):
+                            k0.tag, k0.value = rng.choice([(T + 'int', '1'), (T + 'bool', 'true'), (T + 'null', '~'),
+                                                           (T + 'float', '1.5')])
         keys = [k.value for k, _ in node.value if isinstance(k, yaml.ScalarNode)] \
             if isinstance(node, yaml.MappingNode) else []
         names = keys + ['absent', 'name'] + [k.replace('-', '_') for k in keys]
@@ -153,10 +176,17 @@ def explore(ctx):
                 t = None if rng.random() < 0.3 else G.gen_type(rng, avail, 2)
                 if t is not None and t[0] == 'map' and t[2] != ('str',):
                     t = None
+                if dict_attrs and rng.random() < 0.4:
+                    a = rng.choice(dict_attrs)
+                    inner = ('map', 'dict', ('str',), rng.choice([('any',), ('int',), ('str',), ('bool',)]))
+                    t = rng.choice([inner, ('seq', 'list', inner), ('union', [('int',), inner]),
+                                    ('map', 'dict', ('str',), inner)])
                 ops.append(('rattr', a, t))
             else:
                 # a value equal to the node's own value half of the time
                 v = rng.choice(VALUES)
+                if bad_keys and rng.random() < 0.5:
+                    a = rng.choice(bad_keys)
                 if isinstance(node, yaml.MappingNode) and rng.random() < 0.5:
                     occ = [x for kk, x in node.value if isinstance(kk, yaml.ScalarNode) and kk.value == a
                            and isinstance(x, yaml.ScalarNode)]
